@@ -17,13 +17,14 @@ def meta(path):
                 pass
     return out
 
+CLAIMED = json.load(open(os.path.join(VERIF, "claimed.json")))   # maintained by the lead: checks that are finished
 props = [json.loads(l) for l in open(os.path.join(VERIF, "properties.jsonl"))]
 checks, na = [], []
 for p in props:
     pid = p["id"]
     f = os.path.join(VERIF, "harness", "corr", pid + ".py")
     m = meta(f) if os.path.exists(f) else {}
-    if not m.get("CLAIMED", os.path.exists(f)):
+    if pid not in CLAIMED or not os.path.exists(f):
         na.append({"property_id": pid, "reason": m.get("NA_REASON", "check not built yet in this round (design in DESIGN.md section 5)")})
         continue
     checks.append({
